@@ -42,7 +42,7 @@ def join_cond(rng, wl):
 def body(ck, tier, runner):
     rng = Rng(ck.seed * 4001 + 6)
     sd = SemDiff(ck, runner, "joins")
-    ncase = 150 if tier == "quick" else 5000
+    ncase = 500 if tier == "quick" else 5000
     for d in range(ncase):
         nl = rng.pick([0, 1, 3, 8, 20, 60, 150])
         nr = rng.pick([0, 1, 3, 8, 20, 60, 150])
